@@ -256,3 +256,323 @@ Proof.
   split; [reflexivity|]. split; [exact F1|]. split; [exact (F2 Hc)|]. split; [exact F3|]. split; [exact F4|].
   split; [exact F5|]. split; [exact F6|exact F7].
 Qed.
+
+(* ------------------------------------------------------------------------------------------------ *)
+(* 4. any number of blocks                                                                            *)
+
+(* two states that agree on the current track and on the global registers (up to the dead ones): a block cannot tell
+   them apart *)
+Definition sim (a b : song) : Prop :=
+  cur_ok a /\ cur_ok b /\ s_cur b = s_cur a /\ cur_track b = cur_track a /\ globals_eq (gnorm a) (gnorm b).
+
+Lemma s_set_cur_same s : s_set_cur s (s_cur s) = s.
+Proof. destruct s; reflexivity. Qed.
+
+Lemma globals_eq_refl a : globals_eq a a.
+Proof. reflexivity. Qed.
+Lemma globals_eq_sym a b : globals_eq a b -> globals_eq b a.
+Proof. unfold globals_eq. intros H. symmetry. exact H. Qed.
+Lemma globals_eq_trans a b c : globals_eq a b -> globals_eq b c -> globals_eq a c.
+Proof. unfold globals_eq. intros H1 H2. rewrite H1. exact H2. Qed.
+Lemma globals_eq_set_tracks a l : globals_eq (s_set_tracks a l) a.
+Proof. reflexivity. Qed.
+Lemma globals_eq_set_cur a k : globals_eq (s_set_cur a k) a.
+Proof. reflexivity. Qed.
+
+Lemma sim_step T a b a' : localT T -> sim a b -> T (Ok a) = Ok a' ->
+  exists b', T (Ok b) = Ok b' /\ sim a' b'.
+Proof.
+  intros L (Ca & Cb & Ec & Et & G) Ea.
+  destruct (lt_frame _ L _ _ Ea) as [F1 [F2 _]].
+  assert (E0 : gnorm b = s_set_tracks (gnorm a) (s_tracks b)).
+  { pose proof (globals_swap (gnorm b) (gnorm a) (s_cur a) (globals_eq_sym _ _ G)) as H.
+    rewrite <- Ec in H at 1. rewrite <- (gnorm_cur b), s_set_cur_same in H.
+    rewrite <- (gnorm_cur a), s_set_cur_same, gnorm_tracks in H. exact H. }
+  assert (Hs : same_cur (gnorm a) (s_tracks b)).
+  { unfold same_cur, cur_ok, cur_track. rewrite gnorm_tracks, gnorm_cur. split; [exact Ca|].
+    unfold cur_ok in Cb. unfold cur_track in Et. rewrite Ec in Cb, Et. split; [exact Cb|exact Et]. }
+  assert (E2 : gnorm_res (T (Ok b)) = lift (gnorm a) (s_tracks b) (Ok (gnorm a'))).
+  { rewrite <- (gnorm_T T b L), E0, (lt_indep _ L _ _ Hs), lift_gnorm, (gnorm_T T a L), Ea. reflexivity. }
+  cbn [lift] in E2. apply gnorm_res_ok_inv in E2. destruct E2 as [b' [Eb Hb]]. exists b'. split; [exact Eb|].
+  assert (Tb : s_tracks b' = upd_nth (s_cur a) (fun _ => cur_track a') (s_tracks b)).
+  { rewrite <- (gnorm_tracks b'), Hb. cbn [s_tracks s_set_tracks]. rewrite gnorm_cur, gnorm_cur_track. reflexivity. }
+  assert (Cb' : s_cur b' = s_cur a').
+  { rewrite <- (gnorm_cur b'), Hb. cbn [s_cur s_set_tracks]. apply gnorm_cur. }
+  unfold sim, cur_ok. rewrite F1, F2, Cb', F1, Tb, upd_nth_length. split; [exact Ca|]. split; [rewrite <- Ec; exact Cb|].
+  split; [reflexivity|]. split.
+  - unfold cur_track at 1. rewrite Cb', F1, Tb. apply nth_upd_nth_eq. rewrite <- Ec. exact Cb.
+  - rewrite Hb. apply globals_eq_sym, globals_eq_set_tracks.
+Qed.
+
+(* a program: blocks, each addressed to a track *)
+Definition tprog := list (nat * list tok).
+Definition render (P : tprog) : list tok := concat (map (fun tb => TTrack (Z.of_nat (fst tb)) :: snd tb) P).
+Definition blocks_of (t : nat) (P : tprog) : list (list tok) := map snd (filter (fun tb => Nat.eqb (fst tb) t) P).
+
+(* blocks run one after the other on one track, each leaving the global registers as it found them (up to the dead ones) *)
+Inductive nrun (d steps : nat) : list (list tok) -> song -> song -> Prop :=
+| nrun_nil s : nrun d steps [] s s
+| nrun_cons b bs s0 s1 sf :
+    exec_f d steps b (Ok s0) = Ok s1 -> globals_eq (gnorm s1) (gnorm s0) -> nrun d steps bs s1 sf -> nrun d steps (b :: bs) s0 sf.
+
+Lemma nrun_snoc_inv d steps bs b s0 sf : nrun d steps (bs ++ [b]) s0 sf ->
+  exists sa, nrun d steps bs s0 sa /\ exec_f d steps b (Ok sa) = Ok sf /\ globals_eq (gnorm sf) (gnorm sa).
+Proof.
+  revert s0. induction bs as [|x bs IH]; intros s0 H; cbn [app] in H.
+  - inversion H as [|b0 bs0 s00 s1 sf0 E G N]; subst. inversion N; subst. exists s0. split; [constructor|]. split; assumption.
+  - inversion H as [|b0 bs0 s00 s1 sf0 E G N]; subst. destruct (IH s1 N) as [sa [Na [Ea Ga]]].
+    exists sa. split; [econstructor; eassumption|]. split; assumption.
+Qed.
+
+Lemma nrun_globals d steps bs s0 sf : nrun d steps bs s0 sf -> globals_eq (gnorm sf) (gnorm s0).
+Proof.
+  induction 1 as [s|b bs s0 s1 sf E G N IH]; [apply globals_eq_refl|]. eapply globals_eq_trans; eassumption.
+Qed.
+
+Definition balanced_all (l : list (list tok)) : Prop := Forall (fun b => balanced_toks b = true) l.
+Definition pcost (toks : list tok) : nat := match parse_toks toks with Some p => scost lbound p | None => O end.
+
+Lemma balanced_inv X : balanced_toks X = true -> exists p, parse_toks X = Some p /\ pcost X = scost lbound p.
+Proof. unfold balanced_toks, pcost. destruct (parse_toks X) as [p|]; [|discriminate]. intros _. exists p. split; reflexivity. Qed.
+
+Lemma balanced_app X Y : balanced_toks X = true -> balanced_toks Y = true ->
+  balanced_toks (X ++ Y) = true /\ pcost (X ++ Y) = (pcost X + pcost Y)%nat.
+Proof.
+  intros HX HY. destruct (balanced_inv X HX) as [pX [EX CX]]. destruct (balanced_inv Y HY) as [pY [EY CY]].
+  unfold balanced_toks, pcost at 1. rewrite (parse_app X Y pX pY EX EY), scost_papp, CX, CY. split; reflexivity.
+Qed.
+
+Lemma exec_app_b d steps X Y r : balanced_toks X = true -> balanced_toks Y = true -> (pcost X + pcost Y < steps)%nat ->
+  exec_f (S d) steps (X ++ Y) r = exec_f (S d) steps Y (exec_f (S d) steps X r).
+Proof.
+  intros HX HY. destruct (balanced_inv X HX) as [pX [EX CX]]. destruct (balanced_inv Y HY) as [pY [EY CY]].
+  rewrite CX, CY. apply exec_app; assumption.
+Qed.
+
+Lemma block_balanced d steps A : block_ok (S d) steps A = true -> balanced_toks A = true /\ (pcost A < steps)%nat.
+Proof.
+  intros H. destruct (block_parses d steps A H) as [p [E C]]. unfold balanced_toks, pcost. rewrite E. split; [reflexivity|exact C].
+Qed.
+
+Lemma balanced_track_cons x Y : balanced_toks Y = true ->
+  balanced_toks (TTrack x :: Y) = true /\ pcost (TTrack x :: Y) = S (pcost Y).
+Proof. intros HY. apply (balanced_app [TTrack x] Y (eq_refl : balanced_toks [TTrack x] = true) HY). Qed.
+
+Lemma render_app P Q : render (P ++ Q) = render P ++ render Q.
+Proof. unfold render. rewrite map_app, concat_app. reflexivity. Qed.
+
+Lemma balanced_render P : Forall (fun tb => balanced_toks (snd tb) = true) P -> balanced_toks (render P) = true.
+Proof.
+  induction 1 as [|tb P Hb _ IH]; [reflexivity|]. change (render (tb :: P)) with ((TTrack (Z.of_nat (fst tb)) :: snd tb) ++ render P).
+  apply balanced_app; [apply balanced_track_cons; exact Hb|exact IH].
+Qed.
+
+(* the well-formedness of a program on a song: its tracks exist, its blocks are blocks, the fuel suffices for the whole text *)
+Definition prog_wf (d steps : nat) (n : nat) (P : tprog) : Prop :=
+  Forall (fun tb => (fst tb < n)%nat /\ (fst tb <= 999)%nat /\ block_ok d steps (snd tb) = true) P /\ (pcost (render P) < steps)%nat.
+
+Lemma blocks_of_app t P Q : blocks_of t (P ++ Q) = blocks_of t P ++ blocks_of t Q.
+Proof. unfold blocks_of. rewrite filter_app, map_app. reflexivity. Qed.
+
+Lemma exec_track_cons_b d steps x Y r : balanced_toks Y = true -> (S (pcost Y) < steps)%nat ->
+  exec_f (S d) steps (TTrack x :: Y) r = exec_f (S d) steps Y (leafT (step_song (exec_f d steps) (TTrack x)) r).
+Proof.
+  intros HY H. destruct (balanced_inv Y HY) as [pY [EY CY]]. apply (exec_track_cons d steps x Y pY r EY). rewrite <- CY. lia.
+Qed.
+
+Lemma exec_nil d steps r : (0 < steps)%nat -> exec_f (S d) steps [] r = r.
+Proof. intros H. rewrite (exec_f_parsed d steps [] PNil r eq_refl) by (cbn; exact H). reflexivity. Qed.
+
+Lemma nrun_frame d steps bs s0 sf : Forall (fun b => block_ok (S d) steps b = true) bs -> nrun (S d) steps bs s0 sf -> frame_rel s0 sf.
+Proof.
+  intros HB N. induction N as [s|b bs s0 s1 sf E G N IH]; [apply frame_rel_refl|].
+  inversion HB as [|b0 bs0 Hb Hbs]; subst. eapply frame_rel_trans; [|apply IH; exact Hbs].
+  apply (lt_frame _ (block_local steps (S d) b Hb) _ _ E).
+Qed.
+
+Lemma blocks_of_ok d steps n t P :
+  Forall (fun tb => (fst tb < n)%nat /\ (fst tb <= 999)%nat /\ block_ok d steps (snd tb) = true) P ->
+  Forall (fun b => block_ok d steps b = true) (blocks_of t P).
+Proof.
+  intros H. unfold blocks_of. induction H as [|tb P Htb _ IH]; [constructor|]. cbn [filter].
+  destruct (Nat.eqb (fst tb) t); [cbn [map]; constructor; [apply Htb|exact IH]|exact IH].
+Qed.
+
+Lemma globals_break a b : globals_eq a b -> s_break_flag a = s_break_flag b.
+Proof. unfold globals_eq. intros H. apply (f_equal s_break_flag) in H. exact H. Qed.
+
+(* every track is what its own blocks alone make of it *)
+Theorem program_tracks d steps : forall (P : tprog) (s : song) (alone : nat -> song),
+  prog_wf (S d) steps (length (s_tracks s)) P -> s_octave_once s = 0 -> s_break_flag s = 0 ->
+  (forall t, (t < length (s_tracks s))%nat -> nrun (S d) steps (blocks_of t P) (s_set_cur s t) (alone t)) ->
+  exists r, exec_f (S d) steps (render P) (Ok s) = Ok r /\
+    length (s_tracks r) = length (s_tracks s) /\ globals_eq (gnorm r) (gnorm s) /\
+    s_cur r = last (map fst P) (s_cur s) /\
+    (forall t, (t < length (s_tracks s))%nat -> nth t (s_tracks r) dtrk = nth t (s_tracks (alone t)) dtrk).
+Proof.
+  induction P as [|[t b] P' IH] using rev_ind; intros s alone [W F] Ho Hb HN.
+  - exists s. split; [apply exec_nil; cbn in F; lia|]. split; [reflexivity|]. split; [apply globals_eq_refl|]. split; [reflexivity|].
+    intros t Ht. specialize (HN t Ht). cbn in HN. inversion HN; subst. reflexivity.
+  - apply Forall_app in W. destruct W as [W' Wb]. inversion Wb as [|x l [Ht [Ht9 Hbk]] _]; subst. cbn [fst snd] in Ht, Ht9, Hbk.
+    destruct (block_balanced d steps b Hbk) as [Bb Cb].
+    assert (BP' : balanced_toks (render P') = true).
+    { apply balanced_render. eapply Forall_impl; [|exact W']. intros tb [_ [_ H]]. apply (block_balanced d steps _ H). }
+    assert (R1 : render [(t, b)] = TTrack (Z.of_nat t) :: b) by (unfold render; cbn [map concat fst snd]; apply app_nil_r).
+    destruct (balanced_track_cons (Z.of_nat t) b Bb) as [Btb Ctb].
+    rewrite render_app, R1 in F. destruct (balanced_app _ _ BP' Btb) as [_ Capp]. rewrite Capp, Ctb in F.
+    (* the run of the last block alone *)
+    pose proof (HN t Ht) as Nt. rewrite blocks_of_app in Nt. unfold blocks_of at 2 in Nt. cbn [filter fst snd] in Nt.
+    rewrite Nat.eqb_refl in Nt. cbn [map] in Nt. apply nrun_snoc_inv in Nt. destruct Nt as [sa [Na [Ea Ga]]].
+    set (alone' := fun u => if Nat.eqb u t then sa else alone u).
+    destruct (IH s alone') as [r' [E' [L' [G' [C' N']]]]]; [split; [exact W'|lia]|exact Ho|exact Hb| |].
+    { intros u Hu. unfold alone'. destruct (Nat.eqb_spec u t) as [->|Hne]; [exact Na|].
+      pose proof (HN u Hu) as Nu. rewrite blocks_of_app in Nu. unfold blocks_of at 2 in Nu. cbn [filter fst snd] in Nu.
+      destruct (Nat.eqb_spec t u) as [->|_]; [contradiction Hne; reflexivity|]. cbn [map] in Nu. rewrite app_nil_r in Nu. exact Nu. }
+    assert (Ho' : s_octave_once r' = 0)
+      by (rewrite <- (gnorm_octave_once r'), (globals_octave_once _ _ G'), gnorm_octave_once; exact Ho).
+    assert (Hb' : s_break_flag r' = 0) by (rewrite <- (gnorm_break r'), (globals_break _ _ G'), gnorm_break; exact Hb).
+    pose proof (nrun_frame d steps _ _ _ (blocks_of_ok (S d) steps _ t P' W') Na) as [Fa1 [Fa2 _]]. cbn [s_cur s_tracks s_set_cur] in Fa1, Fa2.
+    assert (Sim : sim sa (s_set_cur r' t)).
+    { unfold sim, cur_ok, cur_track. cbn [s_cur s_tracks s_set_cur]. rewrite Fa1, Fa2, L'. split; [exact Ht|]. split; [exact Ht|].
+      split; [reflexivity|]. split.
+      - rewrite (N' t Ht). unfold alone'. rewrite Nat.eqb_refl. reflexivity.
+      - rewrite gnorm_set_cur. eapply globals_eq_trans; [apply (nrun_globals _ _ _ _ _ Na)|].
+        rewrite gnorm_set_cur. eapply globals_eq_trans; [apply globals_eq_set_cur|].
+        eapply globals_eq_trans; [apply globals_eq_sym; exact G'|]. apply globals_eq_sym, globals_eq_set_cur. }
+    destruct (sim_step _ sa (s_set_cur r' t) (alone t) (block_local steps (S d) b Hbk) Sim Ea) as [r [Er Sr]].
+    exists r. rewrite render_app, R1.
+    rewrite (exec_app_b d steps _ _ (Ok s) BP' Btb) by (rewrite Ctb; lia). rewrite E'.
+    rewrite (exec_track_cons_b d steps _ b (Ok r') Bb) by lia.
+    rewrite (track_leaf _ r' t) by (try rewrite L'; assumption).
+    split; [exact Er|].
+    destruct (lt_frame _ (block_local steps (S d) b Hbk) _ _ Er) as [Fr1 [Fr2 [Fr3 _]]]. cbn [s_cur s_tracks s_set_cur] in Fr1, Fr2, Fr3.
+    destruct Sr as (_ & _ & Sc & St & Sg).
+    split; [rewrite Fr2; exact L'|]. split.
+    { eapply globals_eq_trans; [apply globals_eq_sym; exact Sg|]. eapply globals_eq_trans; [exact Ga|].
+      eapply globals_eq_trans; [apply (nrun_globals _ _ _ _ _ Na)|]. rewrite gnorm_set_cur. apply globals_eq_set_cur. }
+    split; [rewrite map_app; cbn [map fst]; rewrite last_last; exact Fr1|].
+    intros u Hu. destruct (Nat.eq_dec u t) as [->|Hne].
+    + unfold cur_track in St. rewrite Sc in St. rewrite Fr1 in Sc. rewrite <- Sc in St. exact St.
+    + rewrite (Fr3 u Hne), (N' u Hu). unfold alone'. destruct (Nat.eqb_spec u t) as [->|_]; [contradiction Hne; reflexivity|reflexivity].
+Qed.
+
+(* ---- two programs with the same blocks on every track, in the same order on each track (any interleaving) ---- *)
+Theorem program_permute d steps (P Q : tprog) (s : song) (alone : nat -> song) :
+  prog_wf (S d) steps (length (s_tracks s)) P -> prog_wf (S d) steps (length (s_tracks s)) Q ->
+  (forall t, blocks_of t Q = blocks_of t P) ->
+  s_octave_once s = 0 -> s_break_flag s = 0 ->
+  (forall t, (t < length (s_tracks s))%nat -> nrun (S d) steps (blocks_of t P) (s_set_cur s t) (alone t)) ->
+  exists r1 r2, exec_f (S d) steps (render P) (Ok s) = Ok r1 /\ exec_f (S d) steps (render Q) (Ok s) = Ok r2 /\
+    s_tracks r1 = s_tracks r2 /\ globals_eq (gnorm r1) (gnorm r2) /\
+    length (s_tracks r1) = length (s_tracks s) /\
+    (forall t, (t < length (s_tracks s))%nat -> nth t (s_tracks r1) dtrk = nth t (s_tracks (alone t)) dtrk).
+Proof.
+  intros WP WQ HB Ho Hb HN.
+  destruct (program_tracks d steps P s alone WP Ho Hb HN) as [r1 [E1 [L1 [G1 [_ N1]]]]].
+  destruct (program_tracks d steps Q s alone WQ Ho Hb) as [r2 [E2 [L2 [G2 [_ N2]]]]]; [intros t Ht; rewrite HB; apply HN, Ht|].
+  exists r1, r2. split; [exact E1|]. split; [exact E2|]. split.
+  - apply (nth_ext _ _ dtrk dtrk); [congruence|]. intros t Ht. rewrite L1 in Ht. rewrite (N1 t Ht), (N2 t Ht). reflexivity.
+  - split; [eapply globals_eq_trans; [exact G1|apply globals_eq_sym; exact G2]|]. split; [exact L1|exact N1].
+Qed.
+
+(* ---- all blocks of a track under ONE track command, tracks in the order of their first appearance ---- *)
+Fixpoint firsts (l : list nat) : list nat :=
+  match l with [] => [] | x :: r => x :: filter (fun y => negb (Nat.eqb y x)) (firsts r) end.
+Definition grouped (P : tprog) : tprog := map (fun t => (t, concat (blocks_of t P))) (firsts (map fst P)).
+
+Lemma firsts_in u : forall l, In u (firsts l) <-> In u l.
+Proof.
+  induction l as [|x r IH]; [reflexivity|]. cbn [firsts In]. rewrite filter_In, IH.
+  destruct (Nat.eqb_spec u x) as [->|Hne]; cbn [negb]; [tauto|]. split; [tauto|]. intros [H|H]; [left; exact H|right; split; [exact H|reflexivity]].
+Qed.
+Lemma NoDup_filter {A} (f : A -> bool) l : NoDup l -> NoDup (filter f l).
+Proof.
+  induction 1 as [|x l Hx _ IH]; [constructor|]. cbn [filter]. destruct (f x); [|exact IH].
+  constructor; [|exact IH]. intros H. apply filter_In in H. apply Hx, H.
+Qed.
+Lemma firsts_nodup : forall l, NoDup (firsts l).
+Proof.
+  induction l as [|x r IH]; [constructor|]. cbn [firsts]. constructor; [|apply NoDup_filter, IH].
+  intros H. apply filter_In in H. destruct H as [_ H]. rewrite Nat.eqb_refl in H. discriminate H.
+Qed.
+
+Lemma blocks_of_tagged_out (f : nat -> list tok) u : forall L, ~ In u L -> blocks_of u (map (fun t => (t, f t)) L) = [].
+Proof.
+  unfold blocks_of. induction L as [|x L IH]; intros H; [reflexivity|]. cbn [map filter fst].
+  destruct (Nat.eqb_spec x u) as [->|_]; [exfalso; apply H; left; reflexivity|]. apply IH. intros H2. apply H. right. exact H2.
+Qed.
+Lemma blocks_of_tagged_in (f : nat -> list tok) u : forall L, NoDup L -> In u L -> blocks_of u (map (fun t => (t, f t)) L) = [f u].
+Proof.
+  induction 1 as [|x L Hx HL IH]; intros H; [contradiction H|]. unfold blocks_of. cbn [map filter fst].
+  destruct (Nat.eqb_spec x u) as [->|Hne].
+  - cbn [map snd]. f_equal. apply (blocks_of_tagged_out f u L Hx).
+  - destruct H as [H|H]; [contradiction Hne|]. apply IH, H.
+Qed.
+Lemma blocks_of_none u P : ~ In u (map fst P) -> blocks_of u P = [].
+Proof.
+  unfold blocks_of. induction P as [|tb P IH]; intros H; [reflexivity|]. cbn [filter].
+  destruct (Nat.eqb_spec (fst tb) u) as [E|_]; [exfalso; apply H; left; exact E|]. apply IH. intros H2. apply H. right. exact H2.
+Qed.
+
+Definition run_blocks (d steps : nat) (bs : list (list tok)) (r : res song) : res song :=
+  fold_left (fun r b => exec_f d steps b r) bs r.
+
+Lemma balanced_concat bs : balanced_all bs -> balanced_toks (concat bs) = true.
+Proof.
+  induction 1 as [|b bs Hb _ IH]; [reflexivity|]. cbn [concat]. apply (balanced_app b (concat bs) Hb IH).
+Qed.
+
+Lemma exec_concat_blocks d steps : forall bs r, balanced_all bs -> (pcost (concat bs) < steps)%nat ->
+  exec_f (S d) steps (concat bs) r = run_blocks (S d) steps bs r.
+Proof.
+  induction bs as [|b bs IH]; intros r HB HC; [apply exec_nil; lia|].
+  inversion HB as [|b0 bs0 Hb Hbs]; subst. cbn [concat] in *. pose proof (balanced_concat bs Hbs) as Bc.
+  destruct (balanced_app b (concat bs) Hb Bc) as [_ C]. rewrite C in HC.
+  rewrite (exec_app_b d steps b (concat bs) r Hb Bc HC). cbn [run_blocks fold_left]. apply IH; [exact Hbs|lia].
+Qed.
+
+Lemma nrun_run d steps bs s0 sf : nrun d steps bs s0 sf -> run_blocks d steps bs (Ok s0) = Ok sf.
+Proof. induction 1 as [s|b bs s0 s1 sf E G N IH]; [reflexivity|]. cbn [run_blocks fold_left]. rewrite E. exact IH. Qed.
+
+Theorem program_grouped d steps (P : tprog) (s : song) (alone : nat -> song) :
+  prog_wf (S d) steps (length (s_tracks s)) P -> prog_wf (S d) steps (length (s_tracks s)) (grouped P) ->
+  s_octave_once s = 0 -> s_break_flag s = 0 ->
+  (forall t, (t < length (s_tracks s))%nat -> nrun (S d) steps (blocks_of t P) (s_set_cur s t) (alone t)) ->
+  exists r1 r2, exec_f (S d) steps (render P) (Ok s) = Ok r1 /\ exec_f (S d) steps (render (grouped P)) (Ok s) = Ok r2 /\
+    s_tracks r1 = s_tracks r2 /\ globals_eq (gnorm r1) (gnorm r2) /\
+    length (s_tracks r1) = length (s_tracks s) /\
+    (forall t, (t < length (s_tracks s))%nat -> nth t (s_tracks r1) dtrk = nth t (s_tracks (alone t)) dtrk).
+Proof.
+  intros WP WQ Ho Hb HN.
+  destruct (program_tracks d steps P s alone WP Ho Hb HN) as [r1 [E1 [L1 [G1 [_ N1]]]]].
+  destruct (program_tracks d steps (grouped P) s alone WQ Ho Hb) as [r2 [E2 [L2 [G2 [_ N2]]]]].
+  { intros t Ht. specialize (HN t Ht). unfold grouped.
+    destruct (in_dec Nat.eq_dec t (map fst P)) as [Hin|Hout].
+    - rewrite (blocks_of_tagged_in _ t _ (firsts_nodup _)) by (apply firsts_in; exact Hin).
+      assert (Hblk : block_ok (S d) steps (concat (blocks_of t P)) = true).
+      { destruct WQ as [WQ _]. rewrite Forall_forall in WQ.
+        specialize (WQ (t, concat (blocks_of t P))). apply WQ. unfold grouped. apply in_map_iff. exists t. split; [reflexivity|].
+        apply firsts_in. exact Hin. }
+      destruct (block_balanced d steps _ Hblk) as [_ Cc].
+      assert (HBl : balanced_all (blocks_of t P)).
+      { destruct WP as [WP _]. pose proof (blocks_of_ok (S d) steps _ t P WP) as H. eapply Forall_impl; [|exact H].
+        intros b Hbk. apply (block_balanced d steps b Hbk). }
+      econstructor; [|apply (nrun_globals _ _ _ _ _ HN)|constructor].
+      rewrite (exec_concat_blocks d steps _ _ HBl Cc). apply nrun_run. exact HN.
+    - rewrite (blocks_of_tagged_out _ t) by (rewrite firsts_in; exact Hout).
+      rewrite (blocks_of_none t P Hout) in HN. exact HN. }
+  exists r1, r2. split; [exact E1|]. split; [exact E2|]. split.
+  - apply (nth_ext _ _ dtrk dtrk); [congruence|]. intros t Ht. rewrite L1 in Ht. rewrite (N1 t Ht), (N2 t Ht). reflexivity.
+  - split; [eapply globals_eq_trans; [exact G1|apply globals_eq_sym; exact G2]|]. split; [exact L1|exact N1].
+Qed.
+
+(* the well-formedness as a computation *)
+Definition prog_wf_b (d steps n : nat) (P : tprog) : bool :=
+  forallb (fun tb => (fst tb <? n)%nat && (fst tb <=? 999)%nat && block_ok d steps (snd tb)) P && (pcost (render P) <? steps)%nat.
+Lemma prog_wf_b_ok d steps n P : prog_wf_b d steps n P = true -> prog_wf d steps n P.
+Proof.
+  unfold prog_wf_b, prog_wf. intros H. apply andb_prop in H. destruct H as [H1 H2]. split; [|apply Nat.ltb_lt; exact H2].
+  apply Forall_forall. intros tb Hin. rewrite forallb_forall in H1. specialize (H1 tb Hin).
+  apply andb_prop in H1. destruct H1 as [H1 H3]. apply andb_prop in H1. destruct H1 as [H1 H4].
+  split; [apply Nat.ltb_lt; exact H1|]. split; [apply Nat.leb_le; exact H4|exact H3].
+Qed.
